@@ -3,6 +3,7 @@ package main
 import (
 	"fmt"
 	"math/rand"
+	"strings"
 
 	"verif/harness/internal/eng"
 )
@@ -32,6 +33,8 @@ func c12GenHooks(r *rand.Rand, variant int, focus []string, max int) []eng.Hook 
 	if n == 0 && r.Intn(3) > 0 {
 		n = 1 + r.Intn(max)
 	}
+	raw := r.Intn(2) == 0 // the chart spells its hook metadata as annotation strings (c12_meta.go)
+	pal := c12WeightPalettes[r.Intn(len(c12WeightPalettes))]
 	suffix := ""
 	if r.Intn(3) == 0 {
 		suffix = fmt.Sprint(variant) // hooks of this chart do not collide with those of other charts
@@ -63,9 +66,85 @@ func c12GenHooks(r *rand.Rand, variant int, focus []string, max int) []eng.Hook 
 		if len(h.Policies) > 1 && r.Intn(2) == 0 {
 			r.Shuffle(len(h.Policies), func(a, b int) { h.Policies[a], h.Policies[b] = h.Policies[b], h.Policies[a] })
 		}
+		if raw {
+			h = c12RawOf(r, h, pal)
+		}
 		out = append(out, h)
 	}
 	return out
+}
+
+// ---- annotation strings ----
+
+// weight-string palettes: the hooks of one chart draw from one palette, so that hooks of one event carry strings whose
+// relative order differs between the decimal reading and other readings (base-0 prefixes, trimmed, underscores)
+var c12WeightPalettes = [][]string{
+	{"01", "02", "08", "09", "10", "010", "007", "9", "1", "00", "-08", "+010", "8", "0"},        // zero padded
+	{"0x10", "0X1f", "0o7", "0b11", "0b1", "1_0", "1_000", "0x", "5", "3", "0", "-1", "2", "12"}, // Go literal prefixes / underscores
+	{" 5", "5 ", " 5 ", "\t3", "3\n", "+5", "+0", "-0", "+-2", "--1", "-", "+", "4", "1", "-2"},  // white space, signs
+	{"", "abc", "1e3", "1.5", "five", "0.5", "1", "-1", "2", "0"},                                // empty, not integers
+	{"9223372036854775807", "9223372036854775808", "-9223372036854775808", "-9223372036854775809", "99999999999999999999", // range
+		"000000000000000000000000000007", "2147483648", "-2147483649", "4294967296", "1", "0", "-1"},
+	{"-2", "-1", "0", "1", "2", "-10", "20", "+3", "07", "010", "0x1", " 1", "1_1", ""}, // mostly plain
+}
+
+func c12Spell(r *rand.Rand, tok string) string {
+	switch r.Intn(10) {
+	case 0:
+		tok = strings.ToUpper(tok)
+	case 1:
+		if tok != "" {
+			tok = strings.ToUpper(tok[:1]) + tok[1:]
+		}
+	case 2:
+		tok = " " + tok
+	case 3:
+		tok = tok + []string{" ", "\t", "  ", "\n"}[r.Intn(4)]
+	}
+	return tok
+}
+
+func c12SpellList(r *rand.Rand, toks []string) string {
+	sp := make([]string, len(toks))
+	for i, t := range toks {
+		sp[i] = c12Spell(r, t)
+	}
+	return strings.Join(sp, []string{",", ",", ",", ", ", " ,"}[r.Intn(5)])
+}
+
+// c12RawOf: the same hook with its metadata spelled as annotation strings
+func c12RawOf(r *rand.Rand, h eng.Hook, pal []string) eng.Hook {
+	evs := append([]string{}, h.Events...)
+	for i, e := range evs {
+		if e == "test" && r.Intn(2) == 0 {
+			evs[i] = "test-success"
+		}
+	}
+	pol := append([]string{}, h.Policies...)
+	if r.Intn(8) == 0 { // an unknown policy token (every token is stored; none of them means anything)
+		pol = append(pol, []string{"foo", "hook-succeded", "", "before-hook-creation!"}[r.Intn(4)])
+		if len(pol) > 1 && r.Intn(2) == 0 {
+			pol[0], pol[len(pol)-1] = pol[len(pol)-1], pol[0]
+		}
+	}
+	var kv []string
+	if len(pol) > 0 {
+		kv = append(kv, "d", c12SpellList(r, pol))
+		if !policyExpressible(annTokens(kv[1])) {
+			evs = []string{"test"} // unknown tokens only: no default and no policy - outside the engine model's hook record; parsed, never run
+		}
+	}
+	if r.Intn(12) > 0 { // else: no weight annotation
+		kv = append(kv, "w", pal[r.Intn(len(pal))])
+	}
+	if r.Intn(4) == 0 {
+		kv = append(kv, "l", c12SpellList(r, [][]string{{"hook-succeeded"}, {"hook-failed"}, {"hook-succeeded", "hook-failed"}, {"hook-failed", "bar"}}[r.Intn(4)]))
+	}
+	ev := c12SpellList(r, evs)
+	if r.Intn(20) == 0 { // an unknown event name: Helm skips the whole document
+		ev = []string{ev + ",", "pre-instal," + ev, ev + ",post-instal", "", ev + ",,"}[r.Intn(5)]
+	}
+	return rawHookOf(h.Res, ev, kv...)
 }
 
 func c12Manifest(r *rand.Rand, variant int) []eng.Res {
